@@ -216,10 +216,12 @@ const (
 	famLevel
 	famLazy
 	famObserver
+	famJSONDyn // json core on an AtomicLevel that is above Fatal during every derivation
+	famTeeDyn  // tee(json, observer), both on the same such AtomicLevel
 	nFam
 )
 
-var famNames = [nFam]string{"json", "console", "tee(json,observer)", "sampler(json)", "hooked(json)", "increase-level(json)", "lazy(json)", "observer"}
+var famNames = [nFam]string{"json", "console", "tee(json,observer)", "sampler(json)", "hooked(json)", "increase-level(json)", "lazy(json)", "observer", "json@AtomicLevel(off while deriving)", "tee(json,observer)@AtomicLevel(off while deriving)"}
 
 const (
 	fmtJSON = iota
@@ -259,7 +261,8 @@ type fixture struct {
 	hookMsg    string
 	hookName   string
 	kept       []keptEntry
-	evalDemand bool // every serialising core is a byte encoder: evaluation counts are demanded
+	lvl        *zap.AtomicLevel // dynamic level: nothing enabled during derive events, Debug during log events
+	evalDemand bool             // every serialising core is a byte encoder: evaluation counts are demanded
 }
 
 func (r *runner) newFixture(fam int) *fixture {
@@ -317,6 +320,21 @@ func (r *runner) newFixture(fam int) *fixture {
 		r.muts = append(r.muts, m)
 		fx.rootFields = []fspec{{kind: kInt, key: "r0", i: 7, step: 0}, {kind: kMut, key: "ro", m: m, step: 0}}
 		fx.core = zapcore.NewLazyWith(jsonCore(), toFields(fx.rootFields, 0))
+	case famJSONDyn:
+		al := zap.NewAtomicLevelAt(zapcore.DebugLevel)
+		fx.lvl = &al
+		s := &sink{format: fmtJSON}
+		fx.sinks = append(fx.sinks, s)
+		fx.core = zapcore.NewCore(zapcore.NewJSONEncoder(encCfg), s, al)
+	case famTeeDyn:
+		al := zap.NewAtomicLevelAt(zapcore.DebugLevel)
+		fx.lvl = &al
+		s := &sink{format: fmtJSON}
+		fx.sinks = append(fx.sinks, s)
+		oc, logs := observer.New(al)
+		fx.logs = logs
+		fx.core = pre(zapcore.NewTee(zapcore.NewCore(zapcore.NewJSONEncoder(encCfg), s, al), oc))
+		fx.evalDemand = false
 	case famObserver:
 		oc, logs := observer.New(zapcore.DebugLevel)
 		fx.logs = logs
@@ -452,6 +470,14 @@ func (r *runner) exec(c caseDesc) (fail *failure) {
 		// marshaler evaluated during event k serialises v=k.
 		for _, m := range r.muts {
 			m.val = evNo
+		}
+		if fx.lvl != nil {
+			// the level at derivation time must not influence what a logger emits later
+			if e.derive {
+				fx.lvl.SetLevel(zapcore.FatalLevel + 1)
+			} else {
+				fx.lvl.SetLevel(zapcore.DebugLevel)
+			}
 		}
 		if e.derive {
 			i := e.node
